@@ -26,4 +26,5 @@ class base_array(prophy_data_object):
         return repr(self._values)
 
     def sort(self, key_function=lambda x: x):
-        self._values.sort(key=key_function)
+        """ a key function that fails leaves the array as it was """
+        self._values[:] = sorted(self._values, key=key_function)
